@@ -701,6 +701,39 @@ func e19GetterSym(g *ssa.Function, arg e19Sym, d int) (e19Sym, bool) {
 	return e19GetterSym(call.Common().StaticCallee(), inner, d+1)
 }
 
+// e19ParamLenOperand: v is an integer parameter (isLen false) or len(p) of a slice
+// parameter p (isLen true); returns the parameter and its index.
+func e19ParamLenOperand(v ssa.Value) (par *ssa.Parameter, idx int, isLen bool) {
+	if q, qi := e19ParamIndex(v); q != nil {
+		if e19IsIntType(q.Type()) {
+			return q, qi, false
+		}
+		return nil, -1, false
+	}
+	if a := e19LenArg(v); a != nil {
+		if q, qi := e19ParamIndex(a); q != nil {
+			if _, isSl := q.Type().Underlying().(*types.Slice); isSl {
+				return q, qi, true
+			}
+		}
+	}
+	return nil, -1, false
+}
+
+// e19ContainerLenSyms: the symbolic lengths of container s where `at` executes: the
+// container itself (or the field it is loaded from), the header of the fixed view it
+// is a record of, the argument a helper built it from element by element.
+func e19ContainerLenSyms(s ssa.Value, at ssa.Instruction) []e19Sym {
+	out := []e19Sym{e19SymOfContainer(s)}
+	if v := e19RecordOfFixedView(s, at); v != nil {
+		out = append(out, e19Sym{obj: v, fkey: "lib/query.View.Header"})
+	}
+	if arg := e19LenAlias(s, at); arg != nil {
+		out = append(out, e19SymOfContainer(arg))
+	}
+	return out
+}
+
 // denotesLen: x is len(base).
 func e19DenotesLen(x ssa.Value, base ssa.Value) bool {
 	bs := []e19Sym{e19SymOfContainer(base)}
@@ -1143,6 +1176,93 @@ func (p *e19Prover) le1(v ssa.Value, t e19Term, strict bool, facts []core.Fact, 
 						}
 					}
 				}
+			}
+		}
+	}
+	// 3b''. both sides are parameters of one unexported helper — an int parameter, or
+	// the length of a slice parameter (rowValueOf(record, fieldLen): len(record) against
+	// fieldLen; fill(dst, record): len(record) against len(dst)). The relation holds in
+	// the helper if it holds between the arguments at every call site: the argument on
+	// the left is bounded by the term built from the argument on the right, its length
+	// is the length it was made with there, or both denote the same symbolic length
+	// (a record of a fixed view and view.FieldLen()).
+	if t.minus == nil && d < 8 {
+		lp, li, lIsLen := e19ParamLenOperand(v)
+		var rp *ssa.Parameter
+		ri, rIsLen := -1, false
+		switch {
+		case t.val != nil:
+			rp, ri, rIsLen = e19ParamLenOperand(t.val)
+		case t.base != nil:
+			if q, qi := e19ParamIndex(t.base); q != nil {
+				if _, isSl := q.Type().Underlying().(*types.Slice); isSl {
+					rp, ri, rIsLen = q, qi, true
+				}
+			}
+		}
+		if lp != nil && rp != nil && lp != rp && lp.Parent() == rp.Parent() {
+			fn := lp.Parent()
+			edges := p.c.P.RealCallers(fn)
+			okAll := len(edges) > 0 && len(edges) <= 8 && fn.Parent() == nil && fn.Object() != nil && !fn.Object().Exported()
+			for _, ed := range edges {
+				if !okAll {
+					break
+				}
+				site, isCall := ed.Site.(*ssa.Call)
+				if !isCall || site.Common().StaticCallee() != fn || len(site.Common().Args) != len(fn.Params) {
+					okAll = false
+					break
+				}
+				la, ra := site.Common().Args[li], site.Common().Args[ri]
+				sfacts := core.FactsAt(site.Block())
+				// holds: (len of) the left argument is bounded by term ct at the call site
+				holds := func(ct e19Term) bool {
+					if !lIsLen {
+						return p.le(la, ct, strict, sfacts, site, d+1)
+					}
+					if !strict {
+						var rsyms []e19Sym
+						if ct.val != nil {
+							rsyms = e19LenSyms(ct.val)
+						} else {
+							rsyms = e19ContainerLenSyms(ct.base, site)
+						}
+						if e19AnySymEq(e19ContainerLenSyms(la, site), rsyms) {
+							return true
+						}
+					}
+					ls := e19MadeLens(p.c, la)
+					if len(ls) == 0 {
+						return false
+					}
+					for _, l := range ls {
+						if !p.le(l, ct, strict, sfacts, site, d+1) {
+							return false
+						}
+					}
+					return true
+				}
+				good := false
+				if !rIsLen {
+					good = holds(e19Term{val: ra})
+				} else if holds(e19Term{base: ra}) {
+					good = true
+				} else if ls := e19MadeLens(p.c, ra); len(ls) > 0 {
+					// the right argument was made at the call site: its length is the length it was made with
+					good = true
+					for _, l := range ls {
+						if !holds(e19Term{val: l}) {
+							good = false
+							break
+						}
+					}
+				}
+				if !good {
+					okAll = false
+				}
+			}
+			if okAll {
+				return true
 			}
 		}
 	}
